@@ -1,6 +1,7 @@
 import ASV.Drv.J
 import ASV.Model.LocOps
 import ASV.Model.LocString
+import ASV.Model.LocStringFuzzy
 import ASV.Spec.Bases
 namespace ASV.Drv.C04
 open Lean ASV ASV.Drv
@@ -34,6 +35,24 @@ def unionCanon (w : Int) (ls : List Loc) : List Iv := canon (ls.flatMap (spanPar
 
 def subsetIvs (a b : List Iv) : Bool :=
   a.all fun x => b.any fun y => decide (y.1 ≤ x.1) && decide (x.2 ≤ y.2)
+
+def kindOfInt : Int → PosKind
+  | 1 => .before
+  | 2 => .after
+  | _ => .exact
+def kindToJson : PosKind → Json
+  | .exact => toJson (0 : Int)
+  | .before => toJson (1 : Int)
+  | .after => toJson (2 : Int)
+
+/-- a location with fuzzy positions: the plain location plus one `[kind of start, kind of end]` pair per part -/
+def flocOf (a : Loc) (fz : List (List Int)) : FLoc :=
+  let mk (p : Part) (k : List Int) : FPart :=
+    ⟨⟨kindOfInt (k.getD 0 0), p.lo⟩, ⟨kindOfInt (k.getD 1 0), p.hi⟩, p.strand⟩
+  let ps := List.zipWith mk a.parts (fz ++ List.replicate a.parts.length [])
+  match a with
+  | .simple p => .simple (ps.headD (.ofPart p))
+  | .compound _ => .compound ps
 
 def handle (j : Json) : R Json := do
   let f ← strF j "f"
@@ -152,6 +171,20 @@ def handle (j : Json) : R Json := do
     return jObj [("model", Json.str (String.ofList cs)),
                  ("back", match locFromCharsOp cs with | some (_, l) => locToJson l | none => Json.null),
                  ("back_op", match locFromCharsOp cs with
+                             | some (some o, _) => Json.str (String.ofList o) | _ => Json.null)]
+  | "fstring" =>
+    let a ← locOfJson (← fld j "a")
+    let fz ← listOf (listOf asInt) (← fld j "fz")
+    let op ← asStr (fldD j "op" (Json.str "join"))
+    let fl := flocOf a fz
+    let cs := flocChars op.toList fl
+    let back := flocFromChars cs
+    return jObj [("model", Json.str (String.ofList cs)),
+                 ("back", match back with | some (_, l) => locToJson l.toLoc | none => Json.null),
+                 ("back_kinds", match back with
+                    | some (_, l) => jArr (l.parts.map fun p => jArr [kindToJson p.lo.kind, kindToJson p.hi.kind])
+                    | none => Json.null),
+                 ("back_op", match back with
                              | some (some o, _) => Json.str (String.ofList o) | _ => Json.null)]
   | "parse" =>
     let s ← strF j "s"
